@@ -27,7 +27,7 @@ func c05Run(ctx *core.Ctx, in c05Input, gen func(r *runner) (op, bool)) (c05Inpu
 		// goroutines - the way to see work that was moved into a goroutine nobody waits for
 		defer runtime.GOMAXPROCS(runtime.GOMAXPROCS(1))
 	}
-	r := newRunner(in.T0)
+	r := newRunner(in.T0, in.Loc)
 	// The script runs on its own goroutine (some calls into the Cron are made directly on it, so
 	// that no helper goroutine changes the run-queue order); if it stops making progress - a
 	// call that never returns - it is abandoned and judged.
@@ -149,6 +149,7 @@ type genState struct {
 	// at most one entry per script whose job calls back into its own Cron (so that the order of
 	// such calls is always readable from the scheduler's log)
 	procs      int
+	loc        int // Cron location (s east of UTC); != 0: spec schedules with hour / day fields
 	actPlanned bool
 	actUsed    bool
 	rn         *runner
@@ -172,6 +173,18 @@ func (g *genState) spec() *schedSpec {
 		default:
 			s.Act = &jobAct{K: "entries"}
 		}
+	}
+	if g.loc != 0 && r.Chance(3, 5) {
+		// a parsed crontab line with minute (and hour) fields and no TZ=: its activations are on
+		// the wall clock of the Cron's location, which is not the zone of the clock's times
+		s.K = "spec"
+		s.P = hourNs
+		s.Ph = int64(r.Intn(4)) * 15 * 60 * 1_000_000_000
+		if r.Chance(1, 3) {
+			s.P = 24 * hourNs
+			s.Ph += int64(r.Intn(24)) * hourNs
+		}
+		return s
 	}
 	if g.k <= 2 && r.Chance(1, 5) {
 		// an unsatisfiable schedule (Next = zero time) scheduled FIRST: it sits at the head of
@@ -356,6 +369,22 @@ func (g *genState) next(rn *runner) (op, bool) {
 		}
 	}
 	switch p := r.Intn(100); {
+	case p < 7:
+		// a busy host: the tick the scheduler gets carries a value OLDER than the clock reading,
+		// with other activations inside the gap
+		if ts := rn.nextTargets(); len(ts) > 0 {
+			to := ts[r.Intn(len(ts))]
+			if r.Bool() {
+				to += int64(r.Range(1, 1_700_000_000))
+			}
+			lag := to - ts[0] // the value is the timer's own instant ...
+			if lag > 0 && r.Chance(1, 3) {
+				lag = int64(r.Intn(int(min(lag, 2_000_000_000)) + 1)) // ... or somewhere in between
+			}
+			g.ctx.Sink.Count("adv=lagging-tick-value")
+			return op{Op: "lag", To: to, Extra: lag}, true
+		}
+		return op{Op: "adv", To: g.advTarget(rn)}, true
 	case p < 45:
 		return op{Op: "adv", To: g.advTarget(rn)}, true
 	case p < 57 && nLive < 5 && len(rn.tokens) < 8:
@@ -485,7 +514,13 @@ func c05Gen(ctx *core.Ctx) {
 			g.blockAll = g.blockAll || r.Bool()
 			ctx.Sink.Count("script/GOMAXPROCS=1")
 		}
-		if _, bad := c05Run(ctx, c05Input{T0: g.t0, Procs: g.procs}, g.next); bad {
+		if r.Chance(1, 4) {
+			// Cron location != zone of the clock's (UTC) times; periods of the order of the hour
+			g.loc = []int{19800, -10800, 18000, 49500, -34200}[r.Intn(5)]
+			g.fam = []int64{1800 * sec, 3600 * sec, 3600 * sec, 7200 * sec, 900 * sec}
+			ctx.Sink.Count(fmt.Sprintf("script/location=%+ds", g.loc))
+		}
+		if _, bad := c05Run(ctx, c05Input{T0: g.t0, Procs: g.procs, Loc: g.loc}, g.next); bad {
 			// a script in which something that must happen did not (10 s deadlines) or the
 			// scheduler span: a few of them are verdict enough - do not spend the whole time
 			// budget waiting
